@@ -534,7 +534,7 @@ def needGo (s : State) (h : Nat) (cur : List (Nat × Nat)) : List NeedCheck → 
     | some _ => needGo s h cur rest
   | .slashThisBlock :: rest => if s.lastSlashHeight == h then .ok true else needGo s h cur rest
   | .powerDiff :: rest => match latestSet s with
-    | none => .error "isNeedOracleSetRequest:nil latestOracleSet"
+    | none => .error "isNeedOracleSetRequest:nil-latestOracleSet"
     | some latest => match powerDiffParsed (powerDelta cur latest.members) with
       | none => .error "isNeedOracleSetRequest:LegacyNewDecFromStr"
       | some v => if powerDiffGeRefreshes && v ≥ refreshThreshold s.p then .ok true else needGo s h cur rest
